@@ -9,7 +9,7 @@ REDUCTIONS = ["dpor", "sdpor", "odpor"]
 class C38(core.Prop):
     id = "C38"
     drivers = ["s4u_interp"]
-    sizes = {"quick": 48, "thorough": 2000}
+    sizes = {"quick": 24, "thorough": 2000}
     max_workers = 8
     technique = ("property-based differential testing (Hypothesis): the set of terminal outcomes and the deadlock/assertion verdict of "
                  "simgrid-mc under every reduction vs an independent all-interleavings reference explorer and vs reduction none")
@@ -84,6 +84,10 @@ class C38(core.Prop):
             if red in ("sdpor", "odpor") and any(op[0] == "cv_wait_for" for a in sc["actors"] for op in a["ops"]):
                 cls.append("timed-condvar")
             cls = ":" + ("+".join(cls) or "plain") if red != "none" else ""
+            if res.crashed and "Assertion lock_handle > 0 failed" in res.r.err:
+                oc.bad("%sabort:lock_handle-assertion:%s" % (befs, red), "simgrid-mc reduction %s (%s) aborts: 'Assertion lock_handle > 0 "
+                       "failed'" % (red, extra))
+                continue
             if res.crashed and "A condvar wait is always preceeded by an async_lock right" in res.r.err:
                 oc.bad("%sabort:condvar-wait-without-async-lock:%s" % (befs, red), "simgrid-mc reduction %s (%s) aborts: 'A condvar wait is "
                        "always preceeded by an async_lock right?'" % (red, extra))
